@@ -37,6 +37,9 @@ class S:
         self.need_preface = not client
 
 
+PUMP_PINGS = 150
+
+
 class Spec:
     def __init__(self, key):
         _, role, tier = key
@@ -55,7 +58,10 @@ class Spec:
         # the same traffic arriving in pieces: the first frame of the batch split after its 9-byte header, every later
         # frame in a receive_data call of its own (S2: a SETTINGS frame with two entries, longer than a PING)
         split = ["rxsplit:" + "+".join(c) for c in itertools.product(["S2", "P1", "X"], ["P0", "A3"], ["P2", "S2"])]
-        split += ["rxsplit:S2+P0", "rxsplit:X+P3", "rxsplit:P0+P1"]
+        split += ["rxsplit:S2+P0", "rxsplit:X+P3", "rxsplit:P0+P1", "rxsplit:P0", "rxsplit:A3"]
+        # the LAST frame of the batch split 12 + 5 (its final piece is shorter than a frame header)
+        split += ["rxsplitlast:" + "+".join(c) for c in itertools.product(["S2", "P1"], ["P0", "A3"])] + ["rxsplitlast:P2", "rxsplitlast:A0"]
+        split += ["pump"]
         self.menu = batches + split + ["api:%d" % i for i in range(len(API_PAYLOADS))] + ["req", "rxbad"]
 
     def initial(self):
@@ -153,7 +159,29 @@ class Spec:
             if any(f.type == wire.PING for f in o.frames):
                 bad("short-ping-answered", "7-byte PING answered: %s" % o.brief())
             return Step("rx-conn-error", viols, prune=True)
-        assert lab.startswith("rx:") or lab.startswith("rxsplit:")
+        if lab == "pump":
+            # a long run of PINGs, each answer collected at once through a sized read: every one is answered, none is refused
+            pre = wire.PREFACE if st.need_preface else b""
+            st.need_preface = False
+            for i in range(PUMP_PINGS):
+                payload = b"pump%04d" % i
+                o = H.Obs()
+                try:
+                    evs = conn.receive_data((pre if i == 0 else b"") + wire.ping(payload).serialize())
+                except Exception as e:  # noqa: BLE001
+                    bad("valid-batch-rejected", "PING number %d of a run (every answer collected at once) rejected: %r" % (i + 1, e),
+                        exc=type(e).__name__)
+                    st.closed = True
+                    return Step("rx-raise", viols, prune=True)
+                out = conn.data_to_send(17)
+                rest = conn.data_to_send(1000)
+                want = wire.ping(payload, ack=True).serialize()
+                if [type(e).__name__ for e in evs if type(e).__name__.startswith("Ping")] != ["PingReceived"] or out + rest != want:
+                    bad("ping-acks", "PING number %d of a run: events %s, output %r" % (i + 1, [type(e).__name__ for e in evs], out + rest),
+                        n_expected=1, n_got=(out + rest).count(b"pump"), same_multiset=False)
+                    break
+            return Step("pump", viols)
+        assert lab.startswith("rx:") or lab.startswith("rxsplit")
         codes = lab.split(":", 1)[1].split("+")
         frames = [self._frame(st, c) for c in codes]
         pre = b""
@@ -163,8 +191,12 @@ class Spec:
         if lab.startswith("rx:"):
             o = H.recv(conn, pre + wire.ser(frames))
         else:
-            first = frames[0].serialize()
-            chunks = [pre + first[:9], first[9:]] + [f.serialize() for f in frames[1:]]
+            if lab.startswith("rxsplitlast:"):
+                last = frames[-1].serialize()
+                chunks = [pre] + [f.serialize() for f in frames[:-1]] + [last[:12], last[12:]]
+            else:
+                first = frames[0].serialize()
+                chunks = [pre + first[:9], first[9:]] + [f.serialize() for f in frames[1:]]
             o = None
             for ch in chunks:
                 if not ch:
